@@ -1083,8 +1083,151 @@ struct ProfileCfg {
     bool lookups;
 };
 
-Plan gen_plan(const std::string &property, const std::string &profile, uint64_t seed, bool thorough, const Disabled &dis)
+// ------------------------------------------------------------------ systematic sweeps
+// Small deterministic families of plans that complement the seeded search: every
+// extent vector up to a bound (per dimensionality) for every conversion pair
+// (convsweep, C05) and for every serialisable stack (rtsweep, C06). The run
+// index selects (pair or stack, extent vector); the seed still picks the values.
+int sweep_bound(int n)
 {
+    switch (n) {
+    case 1:
+        return 9;
+    case 2:
+        return 6;
+    case 3:
+        return 4;
+    default:
+        return 3;
+    }
+}
+uint64_t ipow_u(uint64_t b, int e)
+{
+    uint64_t r = 1;
+    while (e-- > 0)
+        r *= b;
+    return r;
+}
+struct SweepItem {
+    int dst = -1, src = -1;
+    uint64_t first = 0, count = 0;
+};
+std::vector<SweepItem> sweep_items(const std::string &profile, bool thorough, const Disabled &dis, uint64_t &total)
+{
+    std::vector<SweepItem> v;
+    total = 0;
+    auto in_tier = [&](int s) { return thorough || g_stacks[s].tier == 0; };
+    if (profile == "convsweep") {
+        for (int k = 0; k < g_nconv; ++k) {
+            int d = g_conv_pairs[k][0], s = g_conv_pairs[k][1];
+            if (!in_tier(d) || !in_tier(s) || dis.core(g_stacks[d]) || dis.core(g_stacks[s]) || dis.conv(g_stacks[d], g_stacks[s]))
+                continue;
+            SweepItem it;
+            it.dst = d;
+            it.src = s;
+            it.first = total;
+            it.count = ipow_u((uint64_t)sweep_bound(g_stacks[s].N), g_stacks[s].N);
+            total += it.count;
+            v.push_back(it);
+        }
+    } else {
+        for (int s = 0; s < g_nstacks; ++s) {
+            if (!in_tier(s) || dis.core(g_stacks[s]) || dis.io(g_stacks[s]) || g_stacks[s].device)
+                continue;
+            SweepItem it;
+            it.src = s;
+            it.first = total;
+            it.count = g_stacks[s].N ? ipow_u((uint64_t)sweep_bound(g_stacks[s].N), g_stacks[s].N) : 3;
+            total += it.count;
+            v.push_back(it);
+        }
+    }
+    return v;
+}
+Plan gen_sweep_plan(const std::string &property, const std::string &profile, uint64_t seed, uint64_t index, bool thorough, const Disabled &dis)
+{
+    Plan p;
+    p.property = property;
+    p.profile = profile;
+    p.seed = seed;
+    Rng rk(seed);
+    static const int chunks[] = {1, 2, 3, 4, 7, 8, 16, 64, 4096, 0};
+    p.nslots = 3;
+    p.getbuf = chunks[rk.below(9)];
+    p.putbuf = chunks[rk.below(10)];
+    p.exc = (int)rk.below(3);
+    p.vmode = VAL_ANY;
+    uint64_t total = 0;
+    auto items = sweep_items(profile, thorough, dis, total);
+    if (!total)
+        return p;
+    index %= total;
+    const SweepItem *it = nullptr;
+    for (auto &x : items)
+        if (index >= x.first && index < x.first + x.count)
+            it = &x;
+    const StackDesc &sd = g_stacks[it->src];
+    uint64_t e = index - it->first;
+    Op c;
+    c.kind = OP_CONSTRUCT;
+    c.a = 0;
+    c.stack = it->src;
+    int B = sweep_bound(sd.N);
+    for (int k = 0; k < sd.N; ++k) {
+        c.ext.push_back((size_t)(e % (uint64_t)B) + 1);
+        e /= (uint64_t)B;
+    }
+    c.vseed = rk.next() & 0xffffffffffffull;
+    p.ops.push_back(c);
+    if (profile == "convsweep") {
+        Op cv;
+        cv.kind = OP_CONVERT_COPY;
+        cv.a = 1;
+        cv.b = 0;
+        cv.stack = it->dst;
+        p.ops.push_back(cv);
+        // and back, when the family has the reverse conversion
+        for (int k = 0; k < g_nconv; ++k)
+            if (g_conv_pairs[k][0] == it->src && g_conv_pairs[k][1] == it->dst && !dis.conv(g_stacks[it->src], g_stacks[it->dst])) {
+                Op back;
+                back.kind = OP_CONVERT_COPY;
+                back.a = 2;
+                back.b = 1;
+                back.stack = it->src;
+                p.ops.push_back(back);
+                break;
+            }
+        Op w;
+        w.kind = OP_WRITE; // a write to the converted field must not show in the source
+        w.a = 1;
+        w.vseed = rk.next() & 0xffffffffffffull;
+        p.ops.push_back(w);
+    } else {
+        Op d;
+        d.kind = OP_DUMP;
+        d.a = 0;
+        d.b = 0;
+        d.vseed = rk.next();
+        p.ops.push_back(d);
+        Op l;
+        l.kind = OP_LOAD;
+        l.a = 1;
+        l.b = 0;
+        l.stack = it->src;
+        p.ops.push_back(l);
+        Op r;
+        r.kind = OP_REDUMP;
+        r.a = 1;
+        r.b = 0;
+        p.ops.push_back(r);
+    }
+    return p;
+}
+
+Plan gen_plan(const std::string &property, const std::string &profile, uint64_t seed, bool thorough, const Disabled &dis, uint64_t index = 0)
+{
+    if (profile == "convsweep" || profile == "rtsweep")
+        return gen_sweep_plan(property, profile, seed, index, thorough, dis);
     Plan p;
     p.property = property;
     p.profile = profile;
@@ -1508,7 +1651,7 @@ RunResult run_plan(const Plan &p, Disabled &dis, Counters &cnt, Progress *prog)
     cuda::begin_run();
 #endif
     RunResult rr;
-    watchdog_arm(RUNNING_ON_VALGRIND ? 600 : 60);
+    watchdog_arm(RUNNING_ON_VALGRIND ? 120 : 10);
     {
         World w(p, dis, cnt, prog);
         for (size_t i = 0; i < p.ops.size() && !w.failed; ++i)
@@ -1564,9 +1707,15 @@ int main(int argc, char **argv)
     }
 
     std::string label = property + "/" + profile;
+    if (args.has("count-sweep")) {
+        uint64_t total = 0;
+        sweep_items(profile, thorough, dis, total);
+        std::printf("SWEEP %llu\n", (unsigned long long)total);
+        return 0;
+    }
     if (args.has("emit-plan")) {
         uint64_t i = args.u64("emit-plan");
-        Plan p = gen_plan(property, profile, run_seed(master, label.c_str(), i), thorough, dis);
+        Plan p = gen_plan(property, profile, run_seed(master, label.c_str(), i), thorough, dis, i);
         std::fputs(plan_text(p).c_str(), stdout);
         return 0;
     }
@@ -1584,7 +1733,7 @@ int main(int argc, char **argv)
         prog->run = i;
         prog->seed = rs;
         prog->op = 0;
-        Plan p = gen_plan(property, profile, rs, thorough, dis);
+        Plan p = gen_plan(property, profile, rs, thorough, dis, i);
         RunResult rr = run_plan(p, dis, cnt, prog);
         steps += rr.steps;
         if (rr.ok)
